@@ -21,7 +21,7 @@ Schedules: all with <= `bound` preemptions (quick 2 on the short scenarios, thor
 seeded random preemption lists on the long / 3-4 thread scenarios.
 """
 import json, os, random, shutil
-from harness import proto, sched, stage
+from harness import proto, sched, stage, lockwatch
 from harness import gen_lru as G
 from harness.framework import Result, pmap, Infra
 from harness.proto import Atom, B, N
@@ -31,12 +31,14 @@ TRUSTED = [
     'the interleaving model is at the granularity of the atomic steps call/acquire/lookup/decide/parse/callback/store/release/return; the real threads are preempted at source-line granularity inside genshi/template/loader.py and genshi/util.py only',
     'assumed, not modelled: the GIL, atomicity of single byte codes and of dict operations, threading.RLock itself (wrapped, not replaced), the memory model of CPython',
     'the scheduler (harness/sched.py, sys.monitoring LINE events) and the recording proxies are harness code',
+    'lock order: every lock a genshi module creates is wrapped by harness/lockwatch.py (proxy for the name threading in the genshi modules, module-level lock objects replaced by one proxy each); which locks exist and how their acquisitions nest is observed on the explored runs only; the lock model (Genshi/Model/LockOrder.lean) has re-entrant locks only and is tied by replaying the recorded lock events of every run (stream lock-model) and of seeded programs over real threading.RLocks (stream lock-model-synthetic)',
     'modelled, not verified: TemplateLoader.load / LRUCache (as in C15), Template._prepare only as "the callback performs these nested loads"',
 ]
 ASSUMPTIONS = [
     'files do not change while the threads run (modifications happen in the set-up phase), except in the scenarios with a writer thread, which replaces a file (rename over the name) at every yield point of a load: those runs are judged by the oracle only (any version the file had is a correct result; a load after quiescence must return the current one)',
     'includes form a tree (no cycles), static hrefs, and are prepared under the lock by the callback (callback = lambda t: t.stream)',
     'schedules are explored up to a preemption bound and by seeded sampling: partial by nature',
+    'a cycle in the observed held -> wanted lock graph without a common gate lock is reported as a potential deadlock even when no explored schedule exhibits it (no analysis of object publication / happens-before)',
 ]
 
 DIR = 0
@@ -49,13 +51,21 @@ def tname(b):
     return 't%d.txt' % b
 
 
-def file_text(b, f):
+XI = 'http://www.w3.org/2001/XInclude'
+
+
+def file_text(b, f, markup=False):
+    if markup:
+        inc = ''.join('<xi:include href="%s"/>' % tname(i) for i in f.get('includes', []))
+        return '<div xmlns:xi="%s">T%d v%d%s%s' % (XI, b, f['content'], inc, '' if f.get('bad') else '</div>')
     inc = ''.join(' {%% include %s %%}' % tname(i) for i in f.get('includes', []))
     return 'T%d v%d%s%s' % (b, f['content'], ' ${1+}' if f.get('bad') else '', inc)
 
 
-def expected_render(files, b):
+def expected_render(files, b, markup=False):
     f = files[b]
+    if markup:
+        return '<div>T%d v%d%s</div>' % (b, f['content'], ''.join(expected_render(files, i, True) for i in f.get('includes', [])))
     return 'T%d v%d%s' % (b, f['content'], ''.join(' ' + expected_render(files, i) for i in f.get('includes', [])))
 
 
@@ -97,6 +107,31 @@ SCENARIOS.append(
      'files': {0: {'content': 10}, 1: {'content': 11}}, 'setup': [L(0), L(1), ['T', 0]],
      'threads': [[0, 1], [['W', 0, 20]]], 'bound': 1})
 
+# threads that render / touch `.stream` of templates loaded in the set-up phase (prepare-time
+# inlining of static includes re-enters `load` from OUTSIDE the loader lock) while other threads
+# load uncached names with loader callbacks that register filters / directives
+# (`Translator().setup` -> `filters.insert`, `add_directives`).  Thread program items:
+# ['R', b] renders the template the set-up phase loaded for b, ['S', b] touches its `.stream`.
+# `callback`: 'setup' = Translator().setup(t); 'filters' = t.filters.append(identity);
+# 'setup+stream' = setup, then t.stream (prepare under the loader lock).
+# Judged by the oracle and the lock model (`gdrv C16 locks`); the load-level trace validation
+# covers programs of loads only.
+SCENARIOS_RENDER = [
+    {'name': 'render-vs-load', 'cap': 3, 'auto_reload': False, 'callback': 'setup', 'markup': True,
+     'files': {0: {'content': 10, 'includes': [1]}, 1: {'content': 11}, 2: {'content': 12}},
+     'setup': [L(0)], 'threads': [[['R', 0]], [2]], 'bound': 2},
+    {'name': 'render-vs-render', 'cap': 2, 'auto_reload': False, 'callback': 'setup', 'markup': True,
+     'files': {0: {'content': 10, 'includes': [1]}, 1: {'content': 11}, 2: {'content': 12, 'includes': [1, 3]},
+               3: {'content': 13}},
+     'setup': [L(0), L(2)], 'threads': [[['R', 0], 3], [['S', 2], ['R', 2]]], 'bound': 1, 'sample': 100},
+    {'name': 'stream-vs-load-text', 'cap': 2, 'auto_reload': False, 'callback': 'filters',
+     'files': {0: {'content': 10, 'includes': [1]}, 1: {'content': 11}, 2: {'content': 12, 'includes': [1]}},
+     'setup': [L(0)], 'threads': [[['S', 0], ['R', 0]], [2, ['R', 2]]], 'bound': 1, 'sample': 100},
+    {'name': 'prepare-in-callback-vs-render', 'cap': 3, 'auto_reload': False, 'callback': 'setup+stream', 'markup': True,
+     'files': {0: {'content': 10, 'includes': [1]}, 1: {'content': 11}, 2: {'content': 12, 'includes': [1]}},
+     'setup': [L(1)], 'threads': [[0, ['R', 0]], [2, ['R', 1]]], 'bound': 1, 'sample': 100},
+]
+
 SCENARIOS_MANY = [
     {'name': 'three-threads', 'cap': 2, 'auto_reload': True, 'callback': False,
      'files': {0: {'content': 10}, 1: {'content': 11}, 2: {'content': 12}}, 'setup': [L(0), ['T', 0]],
@@ -110,7 +145,7 @@ SCENARIOS_MANY = [
 
 def all_scenarios(thorough):
     out = []
-    for s in SCENARIOS + SCENARIOS_MANY:
+    for s in SCENARIOS + SCENARIOS_RENDER + SCENARIOS_MANY:
         s = json.loads(json.dumps(s))
         s['files'] = dict((int(k), v) for k, v in s['files'].items())
         if thorough and not has_writer(s):
@@ -123,7 +158,14 @@ def all_scenarios(thorough):
 
 
 def has_writer(s):
-    return any(isinstance(x, list) for prog in s['threads'] for x in prog)
+    return any(isinstance(x, list) and x[0] == 'W' for prog in s['threads'] for x in prog)
+
+
+def load_programs_only(s):
+    """the load-level interleaving model (`gdrv C16 trace` / `nested`) covers thread programs of
+    loads on text templates whose callback is absent or `lambda t: t.stream`"""
+    return (not has_writer(s) and not s.get('markup') and s['callback'] in (False, True) and
+            all(isinstance(x, int) for prog in s['threads'] for x in prog))
 
 
 def norm_scenario(s):
@@ -147,6 +189,7 @@ def env():
         _env['root'] = os.path.join(proto.ROOT, '.build', 'c16-%d' % os.getpid())
         _env['current'] = [None]
         _env['written'] = None
+        _env['watch'] = [None]
     return _env
 
 
@@ -162,7 +205,7 @@ def write_files(root, scn, files):
     for i, (b, f) in enumerate(sorted(files.items())):
         p = os.path.join(root, tname(b))
         with open(p, 'w') as fh:
-            fh.write(file_text(b, f))
+            fh.write(file_text(b, f, scn.get('markup')))
         os.utime(p, (1000000 + i + 1, 1000000 + i + 1))
 
 
@@ -179,6 +222,8 @@ class Obs(object):
         self.loader = None
         self.numbering = None
         self.versions = {}      # base -> contents the file had while the threads ran
+        self.preloaded = {}     # base -> template the set-up phase loaded
+        self.watch = None       # lockwatch.Watch of this run
 
     def obj(self, t):
         for i, x in enumerate(self.inst):
@@ -193,18 +238,46 @@ class Obs(object):
 def build(scn, obs, e):
     """fresh loader with the recording proxies; runs the set-up phase serially"""
     from genshi.template.loader import TemplateLoader
-    from genshi.template import NewTextTemplate
+    from genshi.template import NewTextTemplate, MarkupTemplate
     from genshi.util import LRUCache
     root = e['root']
+    markup = bool(scn.get('markup'))
+    # every lock a genshi module creates (or created at import time) is wrapped and watched
+    obs.watch = lockwatch.Watch(len(scn['threads']))
+    e['watch'][0] = obs.watch
+    lockwatch.instrument(lambda: e['current'][0], lambda: e['watch'][0])
     files = dict((b, dict(f)) for b, f in scn['files'].items())
     write_files(root, scn, files)
     clock = [len(files) + 2]
     cur = e['current']
 
-    class CountText(NewTextTemplate):
+    class CountText(MarkupTemplate if markup else NewTextTemplate):
         def __init__(self, *a, **kw):
-            NewTextTemplate.__init__(self, *a, **kw)
+            (MarkupTemplate if markup else NewTextTemplate).__init__(self, *a, **kw)
             obs.inst.append(self)
+
+    def passthrough(stream, ctxt=None):
+        return stream
+    kind = scn['callback']
+    if kind is True:
+        callback = lambda t: t.stream
+    elif kind == 'setup':
+        from genshi.filters.i18n import Translator
+        callback = lambda t: Translator().setup(t)
+    elif kind == 'filters':
+        callback = lambda t: t.filters.append(passthrough)
+    elif kind == 'setup+stream':
+        from genshi.filters.i18n import Translator
+
+        def callback(t):
+            Translator().setup(t)
+            t.stream
+    elif not kind:
+        callback = None
+    else:
+        raise ValueError('callback kind %r' % (kind,))
+    if kind not in (False, True):
+        lockwatch.instrument(lambda: e['current'][0], lambda: e['watch'][0])
 
     num = G.Numbering()
     obs.numbering = num
@@ -244,10 +317,12 @@ def build(scn, obs, e):
             num.after_put(self, key, new)
 
     loader = TemplateLoader([root], auto_reload=scn['auto_reload'], max_cache_size=scn['cap'],
-                            default_class=CountText,
-                            callback=(lambda t: t.stream) if scn['callback'] else None)
-    loader._lock = sched.SchedLock(lambda: cur[0], loader._lock, name='loader._lock',
-                                   hook=lambda tid, lab: obs.events.append((tid, lab)))
+                            default_class=CountText, callback=callback)
+    # the lock object the code created (already handed out through the watched factory)
+    loader._lock = sched.SchedLock(lambda: cur[0], lockwatch.unwrap(loader._lock), name='loader._lock',
+                                   hook=lambda tid, lab: obs.events.append((tid, lab)),
+                                   order=lambda: e['watch'][0])
+    obs.watch.lock_id(loader._lock)          # lock 0 = the loader lock
     loader._cache = RecCache(scn['cap'])
     real_load = loader.load
 
@@ -272,7 +347,7 @@ def build(scn, obs, e):
     for op in scn['setup']:
         if op[0] == 'L':
             try:
-                loader.load(tname(op[1]))
+                obs.preloaded[op[1]] = loader.load(tname(op[1]))
             except Exception:  # noqa
                 pass
         elif op[0] in ('W', 'T'):
@@ -280,7 +355,7 @@ def build(scn, obs, e):
             if op[0] == 'W':
                 files[b] = dict(files.get(b, {}), content=op[2])
                 with open(os.path.join(root, tname(b)), 'w') as fh:
-                    fh.write(file_text(b, files[b]))
+                    fh.write(file_text(b, files[b], markup))
             p = os.path.join(root, tname(b))
             os.utime(p, (1000000 + clock[0], 1000000 + clock[0]))
             clock[0] += 1
@@ -294,7 +369,7 @@ def build(scn, obs, e):
         files[b] = dict(files.get(b, {}), content=content)
         p = os.path.join(root, tname(b))
         with open(p + '.new', 'w') as fh:
-            fh.write(file_text(b, files[b]))
+            fh.write(file_text(b, files[b], markup))
         os.utime(p + '.new', (1000000 + clock[0], 1000000 + clock[0]))
         clock[0] += 1
         os.replace(p + '.new', p)
@@ -312,6 +387,22 @@ def run_schedule(scn, schedule, record_where=False):
         def f():
             out = obs.returns.setdefault(tid, [])
             for b in names:
+                if isinstance(b, list) and b[0] in ('R', 'S'):
+                    t = obs.preloaded.get(b[1])
+                    try:
+                        if t is None:
+                            # not loaded in the set-up phase: the thread's own earlier load
+                            t = [v for k, v in out if k == 'ok' and os.path.basename(v.filepath) == tname(b[1])][-1]
+                        if b[0] == 'R':
+                            out.append(('rendered', t.generate().render(encoding=None)))
+                        else:
+                            t.stream
+                            out.append(('streamed', None))
+                    except sched._Abort:
+                        raise
+                    except Exception as ex:  # noqa
+                        out.append(('err', type(ex).__name__))
+                    continue
                 if isinstance(b, list):
                     obs.replace_file(b[1], b[2])
                     out.append(('wrote', b[2]))
@@ -333,6 +424,8 @@ def run_schedule(scn, schedule, record_where=False):
         raise Infra('scheduler: %s (scenario %s, schedule %r)' % (ex, scn['name'], schedule))
     finally:
         e['current'][0] = None
+        # what follows (the oracle renders templates in the main thread) is not part of the run
+        obs.watch.freeze()
     return run, obs
 
 
@@ -346,9 +439,15 @@ def judge(scn, schedule, run, obs):
 
     def bad(what, expected, observed):
         return {'case': case, 'what': what, 'expected': expected, 'observed': observed}
+    mk = bool(scn.get('markup'))
+    w = obs.watch
+    cyc = w.cycle() if w is not None else None
     if run.deadlock is not None:
-        return bad('no call deadlocks', 'all threads finish',
-                   'deadlock at yield point %d: blocked %s' % (run.deadlock['step'], json.dumps(run.deadlock['blocked'], sort_keys=True)))
+        f = bad('no call deadlocks', 'all threads finish',
+                'deadlock at yield point %d: blocked %s' % (run.deadlock['step'], json.dumps(run.deadlock['blocked'], sort_keys=True)))
+        if cyc:
+            f['observed'] += '; lock-order cycle: ' + json.dumps(w.describe(cyc), sort_keys=True)
+        return f
     if run.errors:
         t = sorted(run.errors)[0]
         return bad('thread %d ends normally' % t, 'no exception', '%s: %s' % (type(run.errors[t]).__name__, run.errors[t]))
@@ -358,6 +457,12 @@ def judge(scn, schedule, run, obs):
         if len(got) != len(names):
             return bad('thread %d performs all its loads' % tid, len(names), len(got))
         for b, (kind, val) in zip(names, got):
+            if isinstance(b, list) and b[0] in ('R', 'S'):
+                exp = ('rendered', expected_render(files, b[1], mk)) if b[0] == 'R' else ('streamed', None)
+                if (kind, val) != exp:
+                    return bad('thread %d: %s of the loaded template %s' % (tid, 'rendering' if b[0] == 'R' else '.stream', tname(b[1])),
+                               list(exp), [kind, val])
+                continue
             if isinstance(b, list):
                 continue
             if len(obs.versions.get(b, [])) > 1 and kind == 'ok':
@@ -370,7 +475,7 @@ def judge(scn, schedule, run, obs):
                 for c in obs.versions[b]:
                     fv = dict(files)
                     fv[b] = dict(files[b], content=c)
-                    allowed.append(expected_render(fv, b))
+                    allowed.append(expected_render(fv, b, mk))
                 if text not in allowed or os.path.basename(val.filepath) != tname(b):
                     return bad('thread %d: load(%s) returns a version the file had' % (tid, tname(b)), allowed, text)
                 continue
@@ -380,7 +485,7 @@ def judge(scn, schedule, run, obs):
             elif f.get('bad'):
                 exp = ('err', 'TemplateSyntaxError')
             else:
-                exp = ('ok', expected_render(files, b))
+                exp = ('ok', expected_render(files, b, mk))
             if kind == 'ok':
                 try:
                     obs_val = ('ok', val.generate().render(encoding=None))
@@ -407,9 +512,19 @@ def judge(scn, schedule, run, obs):
                 text = obs.loader.load(tname(b)).generate().render(encoding=None)
             except Exception as ex:  # noqa
                 text = 'raises %s' % type(ex).__name__
-            if text != expected_render(files, b):
+            if text != expected_render(files, b, mk):
                 return bad('a load after the threads are done returns the current content of %s (auto_reload)' % tname(b),
-                           expected_render(files, b), text)
+                           expected_render(files, b, mk), text)
+    if cyc:
+        # no call deadlocked under this schedule, but the threads (set-up phase included) took
+        # locks in orders that form a cycle: two threads on these paths can block each other for
+        # ever.  Soft: the exploration goes on looking for the schedule that exhibits the deadlock.
+        f = bad('no call deadlocks: the order in which locks are taken while others are held is acyclic',
+                'no cycle in the held -> wanted graph over all locks genshi creates',
+                'potential deadlock: ' + json.dumps(w.describe(cyc), sort_keys=True))
+        f['soft'] = True
+        f['case'] = dict(case, observable=False)
+        return f
     if obs.unlocked:
         # nothing observable went wrong under this schedule, but the cache was touched by a thread
         # that did not hold the loader lock (asserted by the instrumented cache subclass)
@@ -501,6 +616,34 @@ def expected_trace_answer(scn, obs):
     return proto.enc([Atom('ok'), items, completed, len(obs.inst), B(True)])
 
 
+def lock_line(w, run):
+    """the lock actions of all threads (main thread = thread n: the set-up phase) in their global
+    order for `gdrv C16 locks`, and the answer expected if the real run is an execution of the
+    model with several re-entrant locks: accepted, the same final holdings, deadlock iff the
+    scheduler found one, and the programs respect the numbering iff the observed graph is acyclic"""
+    progs = [[[Atom('A' if k == 'A' else 'R'), l] for k, l in p] for p in w.model_progs()]
+    events = [[t, Atom(k), l] for t, k, l in w.events]
+    rank = w.rank()
+    final = []
+    for t in range(w.n + 1):
+        final.append([list(reversed(w.held.get(t, []))), 1 if t in w.pending else 0])
+    edges = []
+    for p in w.model_progs():
+        held = []
+        for k, l in p:
+            if k == 'A':
+                if l not in held:
+                    for h in dict.fromkeys(held):
+                        if [h, l] not in edges:
+                            edges.append([h, l])
+                held.insert(0, l)
+            elif l in held:
+                held.remove(l)
+    exp = [Atom('ok'), final, B(run.deadlock is not None), B(rank is not None), edges]
+    return (proto.line(Atom('C16'), Atom('locks'), progs, events, rank if rank is not None else [0] * len(w.names)),
+            proto.enc(exp))
+
+
 def lru_replay_lines(scn, obs):
     """the recorded cache operations replayed on the concrete LRU model: request + expected answer"""
     ops = []
@@ -544,6 +687,7 @@ def explore_shard(arg):
     res = Result()
     lines, expect, cases = [], [], []
     lru_lines, lru_expect = [], []
+    lock_lines, lock_expect, lock_cases = [], [], []
     stop = [False]
     soft = []
 
@@ -557,10 +701,22 @@ def explore_shard(arg):
         if any(e[1] == 'blk' for e in obs.events):
             res.count('runs-with-a-blocked-acquire')
         snap = None
+        # every run, deadlocked ones included: the recorded lock actions against the lock model
+        ll = lock_line(obs.watch, run)
+        lock_lines.append(ll[0])
+        lock_expect.append(ll[1])
+        lock_cases.append(list(schedule))
+        res.count('locks-seen:%d' % len(obs.watch.names))
+        if obs.watch.edges:
+            res.count('runs-with-nested-acquisitions-of-different-locks')
+        if any(isinstance(x, list) and x[0] in ('R', 'S') for prog in scn['threads'] for x in prog):
+            res.count('runs-with-render/stream-threads')
         if has_writer(scn):
             # the interleaving model keeps the files fixed while threads run (C15's LoaderRace
             # model and `racing_write_is_linearizable` cover the replacement): oracle only
             res.count('runs-with-a-writer-thread (oracle only)')
+        elif not load_programs_only(scn):
+            res.count('runs-judged-by-oracle-and-lock-model-only')
         elif run.deadlock is None and not run.errors:
             # what the model is asked, taken before the oracle renders anything
             try:
@@ -629,6 +785,14 @@ def explore_shard(arg):
     finally:
         cleanup()
     res.failures.extend(soft[:1])
+    if lock_lines:
+        answers = proto.run_lines(lock_lines)
+        for sch, ans, exp in zip(lock_cases, answers, lock_expect):
+            res.streams['lock-model'] = res.streams.get('lock-model', 0) + 1
+            if ans != exp:
+                res.disagreements.append({'stream': 'lock-model',
+                                          'case': {'kind': 'sched', 'scenario': scn, 'schedule': sch},
+                                          'model': ans[:1200], 'real': exp[:1200]})
     if lines:
         answers = proto.run_lines(lines)
         for sch, ans, exp in zip(cases, answers, expect):
@@ -654,7 +818,7 @@ def nested_serial(arg):
     scn, seed = arg
     scn = norm_scenario(scn)
     res = Result()
-    if has_writer(scn):
+    if not load_programs_only(scn):
         return res
     lines, expect, cases = [], [], []
     try:
@@ -712,6 +876,96 @@ def nested_serial(arg):
         if ans != exp:
             res.disagreements.append({'stream': 'nested-serial', 'case': {'kind': 'selfcheck', 'variant': 'nested-serial',
                                                                          'scenario': scn['name'], 'loads': ld},
+                                      'model': ans[:1200], 'real': exp[:1200]})
+    return res
+
+
+def gen_lock_prog(rng, nlocks, ordered, depth=0):
+    """a balanced program of lock actions: nested blocks `A l … R l` (re-entrant re-acquisitions
+    included), now and then released in acquisition order instead of nested; `ordered`: locks
+    are only acquired in increasing order while others are held (a rank exists)"""
+    out = []
+    for _ in range(rng.choice([1, 1, 2]) if depth else rng.choice([1, 2, 2, 3])):
+        l = rng.randrange(nlocks)
+        out.append((l, gen_lock_prog(rng, nlocks, ordered, depth + 1) if depth < 2 and rng.random() < 0.6 else []))
+    return out
+
+
+def flatten_lock_prog(rng, tree, ordered, held=()):
+    acts = []
+    for l, inner in tree:
+        if ordered and held and l not in held and l < max(held):
+            l = max(held)
+        body = flatten_lock_prog(rng, inner, ordered, held + (l,))
+        if body and body[0][0] == 'A' and rng.random() < 0.2:
+            # hand-over-hand: A l, A m, R l, …, R m
+            acts += [('A', l), body[0], ('R', l)] + body[1:]
+        else:
+            acts += [('A', l)] + body + [('R', l)]
+    return acts
+
+
+def lock_synthetic(arg):
+    """the model with several re-entrant locks against real `threading.RLock`s: seeded thread
+    programs over 2-3 locks run by 2-3 real threads under seeded preemption lists; the recorded
+    lock events must be an execution of the model, the model's deadlock verdict must be the
+    scheduler's, and a run whose programs have a rank must not deadlock (the theorem's instance)"""
+    seed, count = arg
+    import threading
+    from harness import lockprog
+    res = Result()
+    lines, expect, cases = [], [], []
+    files = [os.path.abspath(lockprog.__file__)]
+    cur = [None]
+    wref = [None]
+    for k in range(count):
+        rng = random.Random('%s/%d/C16-locks' % (seed, k))
+        nthreads = rng.choice([2, 2, 3])
+        nlocks = rng.choice([2, 2, 3])
+        ordered = rng.random() < 0.3
+        progs = [flatten_lock_prog(rng, gen_lock_prog(rng, nlocks, ordered), ordered) for _ in range(nthreads)]
+        total = sum(len(p) for p in progs)
+        steps = sorted(rng.sample(range(1, 2 * total + 2), min(rng.choice([0, 1, 2, 3, 4, 6, 8]), 2 * total)))
+        schedule = [[st, rng.randrange(nthreads)] for st in steps]
+        if rng.random() < 0.35:
+            # fine-grained round robin: the interleaving in which opposite orders meet
+            stride = rng.choice([1, 2, 3, 4])
+            schedule = [[st, (st // stride) % nthreads] for st in range(1, 3 * total, stride)]
+        w = lockwatch.Watch(nthreads)
+        wref[0] = w
+        locks = [sched.SchedLock(lambda: cur[0], threading.RLock(), name='lock%d' % i, order=lambda: wref[0])
+                 for i in range(nlocks)]
+        for lk in locks:
+            w.lock_id(lk)
+        s = sched.Scheduler([(lambda p=p: lockprog.run_prog(locks, p)) for p in progs], files, schedule, timeout=20.0)
+        cur[0] = s
+        try:
+            run = s.execute()
+        except sched.SchedTimeout as ex:
+            raise Infra('scheduler: %s (synthetic lock programs %r, schedule %r)' % (ex, progs, schedule))
+        finally:
+            cur[0] = None
+            w.freeze()
+        res.evaluations += 1
+        case = {'kind': 'locks', 'programs': [[list(a) for a in p] for p in progs], 'nlocks': nlocks, 'schedule': schedule}
+        ln, exp = lock_line(w, run)
+        lines.append(ln)
+        expect.append(exp)
+        cases.append(case)
+        res.count('lock-synthetic:%s' % ('deadlock' if run.deadlock else 'completes'))
+        res.count('lock-synthetic:%s' % ('rank exists' if w.rank() is not None else 'cyclic order'))
+        if any(e[1] == 'blk' for e in w.events):
+            res.count('lock-synthetic:a thread was blocked')
+        if run.switches:
+            res.nontrivial.add('locks:' + json.dumps(case, sort_keys=True))
+        if run.errors:
+            t = sorted(run.errors)[0]
+            res.failures.append({'case': case, 'what': 'synthetic lock program runs', 'expected': 'no exception',
+                                 'observed': '%s: %s' % (type(run.errors[t]).__name__, run.errors[t])})
+    for case, ans, exp in zip(cases, proto.run_lines(lines), expect):
+        res.streams['lock-model-synthetic'] = res.streams.get('lock-model-synthetic', 0) + 1
+        if ans != exp:
+            res.disagreements.append({'stream': 'lock-model-synthetic', 'case': dict(case, kind='selfcheck', variant='lock-model-synthetic'),
                                       'model': ans[:1200], 'real': exp[:1200]})
     return res
 
@@ -812,6 +1066,8 @@ def run(ctx):
         res.merge(r)
     for r in pmap('harness.props.c16', 'validator_selfcheck', [0]):
         res.merge(r)
+    for r in pmap('harness.props.c16', 'lock_synthetic', [('%s-%d' % (ctx.seed, j), ctx.n(100, 1500)) for j in range(4)]):
+        res.merge(r)
     for r in pmap('harness.props.c16', 'nested_serial', [(scn, ctx.seed) for scn in scns]):
         res.merge(r)
     res.failures.sort(key=lambda f: 1 if f.get('soft') else 0)
@@ -853,11 +1109,20 @@ def replay(ctx, case):
         raise ValueError(case.get('kind'))
     scn = norm_scenario(case['scenario'])
     schedule = [[int(s), int(t)] for s, t in case['schedule']]
+    preloaded = set(op[1] for op in scn['setup'] if isinstance(op, list) and op and op[0] == 'L')
+    for prog in scn['threads']:
+        for i, x in enumerate(prog):
+            if isinstance(x, list) and len(x) == 2 and x[0] in ('R', 'S') and not (
+                    (x[1] in preloaded or x[1] in [y for y in prog[:i] if isinstance(y, int)]) and x[1] in scn['files']
+                    and not scn['files'][x[1]].get('bad')):
+                # renders a template nobody loaded
+                raise ValueError('not a thread program')
     for prog in scn['threads']:
         for x in prog:
             # shrinking produces thread programs that are no programs
             if not (isinstance(x, int) or (isinstance(x, list) and len(x) == 3 and x[0] == 'W' and
-                                           isinstance(x[1], int) and isinstance(x[2], int))):
+                                           isinstance(x[1], int) and isinstance(x[2], int)) or
+                    (isinstance(x, list) and len(x) == 2 and x[0] in ('R', 'S') and isinstance(x[1], int))):
                 raise ValueError('not a thread program')
     try:
         run, obs = run_schedule(scn, schedule)
